@@ -4,6 +4,7 @@ package verifsim
 
 import (
 	"fmt"
+	"hash/crc32"
 	"strings"
 )
 
@@ -320,6 +321,11 @@ func invalidPayload(s *Stream, h *History) []byte {
 		if s.Chance(1, 3) {
 			p[0], p[1], p[2], p[3] = 0, 0, 0, 0 // timestamp 0 as well
 		}
+	}
+	if len(p) >= 23 && s.Chance(1, 5) {
+		// arrived "intact": the last four bytes are the CRC32 of the rest
+		c := crc32.ChecksumIEEE(p[:len(p)-4])
+		p[len(p)-4], p[len(p)-3], p[len(p)-2], p[len(p)-1] = byte(c), byte(c>>8), byte(c>>16), byte(c>>24)
 	}
 	// whatever the class, the payload must fail the validity predicate
 	if len(p) >= 19 {
